@@ -1810,6 +1810,23 @@ def m_count(I, it, args, pc, e):
     return VInt(it.vec.n)
 
 
+def m_iter_take_while(I, it, args, pc, e):
+    """Iterator::take_while: the longest prefix whose elements all satisfy the predicate"""
+    vec = it.vec if isinstance(it, VIter) else it
+    alive = z3.BoolVal(True)
+    cnt = bv(0)
+    for i, x in enumerate(vec.items):
+        live = z3.And(pc, alive, ugt(vec.n, bv(i)))
+        if z3.is_false(z3.simplify(live)):
+            break
+        r = I.call_closure(args[0], [x], live)
+        if not isinstance(r, VBool):
+            raise Unsupported("closure in take_while must return bool")
+        alive = z3.And(alive, ugt(vec.n, bv(i)), r.e)
+        cnt = cnt + z3.If(alive, bv(1), bv(0))
+    return VIter(VVec(vec.items, cnt))
+
+
 def m_iter_filter(I, it, args, pc, e):
     """Iterator::filter of which only `.count()` is modelled: the number of elements satisfying the predicate"""
     vec = it.vec if isinstance(it, VIter) else it
@@ -2195,6 +2212,8 @@ METHODS = {
     ("VIter", "next"): m_iter_next,
     ("VIter", "count"): m_count,
     ("VIter", "filter"): m_iter_filter,
+    ("VIter", "take_while"): m_iter_take_while,
+    ("VIter", "skip_while"): lambda I, it, a, pc, e: (_ for _ in ()).throw(Unsupported("skip_while")),
     ("VVec", "len"): m_vec_len,
     ("VVec", "insert"): m_vec_insert,
     ("VVec", "iter"): m_vec_iter,
